@@ -95,13 +95,13 @@ Qed.
 
 (* svd_interface with a mask (method truncated_svd): the returned triple is the sign-resolved truncated SVD of the last
    imputed matrix Mlast, which agrees with the input on every observed entry. orc c X = LAPACK's answer on the c-th call, handed X. *)
-Theorem interface_masked_e2e (orc : nat -> list (list R) -> bool -> triple R) d1 d2 (Ml mask : list (list R))
-    r flip ub iters sq eps U Sg V :
+Theorem interface_masked_e2e (orc : nat -> list (list R) -> bool -> triple R) (funs : fname -> nat -> list (list R) -> triple R)
+    d1 d2 (Ml mask : list (list R)) r flip ub iters sq eps U Sg V :
   rect d1 d2 Ml -> rect d1 d2 mask ->
   (forall c X, rect d1 d2 X -> forall f, svd_contract d1 d2 (mg X) f (orc c X f)) ->
+  (forall c X, funs FTruncated c X = truncated_svd (orc c X) d1 d2 (Some r)) ->
   (1 <= r <= Nat.min d1 d2)%nat -> (1 <= iters)%nat ->
-  svd_interface Rops (fun c X => truncated_svd (orc c X) d1 d2 (Some r)) MTruncated d2 Ml (Some r) flip ub None (Some mask) iters sq eps
-    = Ok (U, Sg, V) ->
+  svd_interface Rops funs MTruncated d2 Ml (Some r) flip ub None (Some mask) iters sq eps = Ok (U, Sg, V) ->
   exists Mlast c,
     rect d1 d2 Mlast /\
     (forall i j, (i < d1)%nat -> (j < d2)%nat -> mg mask i j = 1 -> mg Mlast i j = mg Ml i j) /\
@@ -110,10 +110,10 @@ Theorem interface_masked_e2e (orc : nat -> list (list R) -> bool -> triple R) d1
     rsum d1 (fun i => rsum d2 (fun j => (mg Mlast i j - recon U Sg V i j)^2))
       = rsum (Nat.min d1 d2 - r) (fun t => (nth (r + t) (snd (fst (orc c Mlast false))) 0)^2).
 Proof.
-  intros HM Hm HC Hr Hit E.
-  set (sf := fun (c : nat) (X : list (list R)) => truncated_svd (orc c X) d1 d2 (Some r)).
+  intros HM Hm HC HFu Hr Hit E.
+  set (sf := funs FTruncated).
   assert (HF : forall c X, rect d1 d2 X -> length (fst (fst (sf c X))) = d1).
-  { intros c X HX. unfold sf.
+  { intros c X HX. unfold sf. rewrite HFu.
     pose proof (truncated_shapes_documented R (orc c X) d1 d2 r (fun f => svd_contract_shape _ _ _ _ _ (HC c X HX f)) ltac:(lia)) as SH.
     destruct (truncated_svd (orc c X) d1 d2 (Some r)) as [[U0 S0] V0]. destruct SH as ((L & _) & _). exact L. }
   pose proof (mask_loop_spec d1 d2 sf mask Hm HF iters 1%nat Ml (sf 0%nat Ml) HM (HF _ _ HM)) as SP.
@@ -124,8 +124,10 @@ Proof.
   destruct (mask_loop Rops sf d2 mask iters 1 Ml (sf 0%nat Ml)) as [M1 t1] eqn:EL.
   destruct SP as (R1 & O1 & T1). specialize (T1 ltac:(lia)).
   exists M1, (1 + iters - 1)%nat. split; [exact R1 | split; [exact O1|]].
-  apply (interface_truncated_e2e (orc (1 + iters - 1)%nat M1) d1 d2 (mg M1) M1 r flip ub iters sq eps U Sg V (HC _ _ R1) Hr).
-  rewrite interface_unfold by discriminate. rewrite <- E. subst t1. unfold sf.
-  destruct (truncated_svd (orc (1 + iters - 1)%nat M1) d1 d2 (Some r)) as [[U0 S0] V0].
+  set (c := (1 + iters - 1)%nat) in *.
+  apply (interface_truncated_e2e (orc c) (fun _ _ X => truncated_svd (orc c X) d1 d2 (Some r)) d1 d2 M1 r flip ub iters sq eps U Sg V
+           (HC _ _ R1) (fun _ _ => eq_refl) Hr).
+  rewrite (interface_unfold _ MTruncated FTruncated) by reflexivity. rewrite <- E. subst t1. unfold sf. rewrite HFu.
+  destruct (truncated_svd (orc c M1) d1 d2 (Some r)) as [[U0 S0] V0].
   destruct flip; [destruct (svd_flip Rops U0 V0 ub)|]; reflexivity.
 Qed.
